@@ -353,20 +353,24 @@ class Walker:
                 # len(text) op c : valid texts (hexadecimal numerals with any number of leading zeros) exist in every length >= 1
                 if isinstance(var, ast.Call) and isinstance(var.func, ast.Name) and var.func.id == "len" and len(var.args) == 1 \
                         and isinstance(var.args[0], ast.Name) and isinstance(env.get(var.args[0].id), TextV) and type(op) in flipmap0:
-                    t_ = env[var.args[0].id]
+                    nm_ = var.args[0].id
+                    t_ = env[nm_]
                     c = ev.const_int(other)
-                    if c is not None and not t_.prefix and not t_.may_be_empty and not t_.history:
+                    if c is not None and not t_.prefix and not t_.may_be_empty and not t_.as_bytes:
+                        from dataclasses import replace as _rep
+                        from .strshape import text_witness
                         o = flipmap0[type(op)]() if flip else op
-                        tr, fr = _split_int(IntV(1, 1 << 20), o, c)
+                        cur = IntV(t_.len_lo, t_.len_hi if t_.len_hi is not None else (1 << 20))
+                        tr, fr = _split_int(cur, o, c)
                         out = []
-
-                        def text_of(rng):
-                            n_ = rng.lo
-                            return ("0" * (n_ - 1) + "f") if n_ > 16 else "f" * n_
-                        if tr is not None:
-                            out.append((True, dict(env), True, text_of(tr)))
-                        if fr is not None:
-                            out.append((False, dict(env), True, text_of(fr)))
+                        for truth, rng in ((True, tr), (False, fr)):
+                            if rng is None:
+                                continue
+                            t2 = _rep(t_, len_lo=rng.lo, len_hi=(None if rng.hi >= (1 << 20) else rng.hi))
+                            wit_ = text_witness(t2)
+                            if wit_ is None:
+                                continue
+                            out.append((truth, dict(env, **{nm_: t2}), True, wit_))
                         return out
                 # a value parsed from a valid text with base 16 lies in [0, 2**64): decide comparisons that hold on that whole range
                 if isinstance(var, ast.Name) and isinstance(env.get(var.id), ParsedV) and env[var.id].base == 16 and type(op) in flipmap0:
@@ -391,6 +395,21 @@ class Walker:
                         if f is not None:
                             out.append((False, dict(env, **{var.id: f}), True, None))
                         return out
+        if isinstance(test, ast.Call) and isinstance(test.func, ast.Attribute) and test.func.attr in ("isdigit", "isdecimal", "isnumeric") and not test.args \
+                and isinstance(test.func.value, ast.Name) and isinstance(env.get(test.func.value.id), TextV):
+            from dataclasses import replace as _rep
+            from .strshape import text_witness
+            nm_ = test.func.value.id
+            t_ = env[nm_]
+            if t_.digits_only is not None:
+                return [(t_.digits_only, dict(env), True, None)]
+            out = []
+            for truth in (True, False):
+                t2 = _rep(t_, digits_only=truth)
+                w_ = text_witness(t2)
+                if w_ is not None:
+                    out.append((truth, dict(env, **{nm_: t2}), True, w_))
+            return out
         if isinstance(test, ast.BinOp) and isinstance(test.op, (ast.BitAnd, ast.Mod)) and isinstance(test.left, ast.Call) and isinstance(test.left.func, ast.Name) \
                 and test.left.func.id == "len" and len(test.left.args) == 1 and isinstance(test.left.args[0], ast.Name) \
                 and isinstance(env.get(test.left.args[0].id), TextV) and isinstance(test.right, ast.Constant) \
@@ -399,10 +418,13 @@ class Walker:
             t_ = env[nm]
             from dataclasses import replace as _rep
             out = []
-            if t_.parity in (None, "odd"):
-                out.append((True, dict(env, **{nm: _rep(t_, parity="odd")}), True, "f" if t_.parity is None else None))
-            if t_.parity in (None, "even"):
-                out.append((False, dict(env, **{nm: _rep(t_, parity="even")}), True, "ff" if t_.parity is None else None))
+            from .strshape import text_witness
+            for truth, par in ((True, "odd"), (False, "even")):
+                if t_.parity in (None, par):
+                    t2 = _rep(t_, parity=par)
+                    w_ = text_witness(t2)
+                    if w_ is not None:
+                        out.append((truth, dict(env, **{nm: t2}), True, w_))
             return out
         if isinstance(test, ast.Name) and isinstance(env.get(test.id), IntV):
             t, f = _split_int(env[test.id], ast.NotEq(), 0)
@@ -575,6 +597,8 @@ def check_parser(ctx, fn: ast.FunctionDef, rel: str, mod=None):
             st, why = judge_parser(v)
             if st == core.VIOLATED and not p.certain:
                 st, why = core.UNDECIDED, "on a path whose feasibility is not decided: " + why
+            elif st == core.VIOLATED and p.witness is not None and p.trail:
+                why += f"; this path is taken e.g. for the valid text {p.witness!r}"
         res.append((st, construct, core.loc(rel, node), why))
     return res
 
